@@ -410,6 +410,10 @@ def _outcome(func, plain, arrs):
         return '(err value)'
     except (RuntimeError, IndexError, NotImplementedError):
         return '(err runtime)'
+    except (TypeError, AttributeError, AssertionError, KeyError) as e:
+        # the library failing in its own way (e.g. a negative axis resolving to a scalar inside a record): an error
+        # outcome, compared as such with the other run
+        return '(err other)'
 
 
 def run_part(parts):
